@@ -18,7 +18,7 @@ func c02Long(r *drv.Run) {
 	src := gen.RenderProgram(p)
 	sizes := []int{100, 4095, 4096, 4097, 65535, 65536, 65537, 70000}
 	if !quick(r) {
-		sizes = append(sizes, 131073, 196609, 262145, 1<<20+1)
+		sizes = append(sizes, 131073, 196609, 262145)
 	}
 	type job struct {
 		n       int
@@ -54,7 +54,7 @@ func c02Long(r *drv.Run) {
 			mk("last-but-one-byte-differs", flip(n-2), false)
 		}
 	}
-	r.Exec(len(jobs), drv.ExecOpts{Batch: 3, Env: []string{"VW_RSS_LIMIT_MB=6000"}}, func(i int) *drv.Item {
+	r.Exec(len(jobs), drv.ExecOpts{Batch: 3, Env: []string{"VW_RSS_LIMIT_MB=6000", "VW_CPU_LIMIT_S=240"}}, func(i int) *drv.Item {
 		jb := jobs[i]
 		c := wire.Case{Op: "run", Src: []byte(src), Texts: [][]byte{jb.text}, StepBudget: 2_000_000}
 		return &drv.Item{Case: c, Check: func(res *wire.Result) {
